@@ -327,6 +327,8 @@ func (e *Engine) mergeVal(c *Term, a, b Val) Val {
 			return x
 		}
 		return FuncV{Handle: tb.Ite(c, e.funcHandle(x), e.funcHandle(y))}
+	case FieldRefV:
+		return a
 	}
 	return a
 }
